@@ -296,6 +296,24 @@ func c02Tasks(tier string) []Task {
 		run := makeRunC02(bw, br[1], br)
 		tasks = append(tasks, seqTasks("C02", []seqLevel{{Name: "block-family-d4", Cfgs: bothPools(bw), Keys: keysAB, Alpha: alpha, Depth: 4, Dev: 2, Run: run}})...)
 	}
+	// binary keys (ending in zero bytes, prefixes of one another, leading 0xFF) under cross-configuration restarts:
+	// every index type x both back-ends as readers (shard hash, index order, record and hint encodings)
+	{
+		var br []Cfg
+		for _, ix := range []int8{1, 2, 3} {
+			for _, io := range []byte{0, 1} {
+				c := defaultCfg
+				c.Index, c.IO = ix, io
+				br = append(br, c)
+			}
+		}
+		alpha := func(c Cfg) []Op {
+			return []Op{{K: "put", Key: binaryKeys[0], VC: "S"}, {K: "put", Key: binaryKeys[1], VC: "S"}, {K: "put", Key: binaryKeys[2], VC: "L"},
+				{K: "del", Key: binaryKeys[0], Dev: true}, {K: "merge", Dev: true}, {K: "xrestart", Dev: true}}
+		}
+		run := makeRunC02(defaultCfg, br[1], br)
+		tasks = append(tasks, seqTasks("C02", []seqLevel{{Name: "binary-keys-d4", Cfgs: []Cfg{defaultCfg}, Keys: binaryKeys, Alpha: alpha, Depth: 4, Dev: 2, Run: run}})...)
+	}
 	// reopening with another DataFileSize and merging afterwards (the merge output then needs more / fewer files
 	// than its input): deeper than the pair levels, restricted to the pairs that differ in DataFileSize
 	{
